@@ -361,6 +361,8 @@ class QualifiedSWHID(_BaseSWHID[ObjectType]):
             unescaped_origin = origin
             origin = origin.replace("%", "%25")
             origin = origin.replace(";", "%3B")
+            # whitespace cannot appear in the text form: percent-encode it too
+            origin = re.sub(r"\s", lambda m: urllib.parse.quote(m.group()), origin)
             assert (
                 urllib.parse.unquote(origin) == unescaped_origin
             ), "Escaping ';' in the origin qualifier corrupted the origin URL."
